@@ -966,9 +966,10 @@ coap_get_query(const coap_pdu_t *request) {
     if (query) {
       query->length = length;
       unsigned char *s = query->s;
+      int n = 0;
       coap_option_iterator_init(request, &opt_iter, &f);
       while ((q = coap_option_next(&opt_iter))) {
-        if (s != query->s)
+        if (n++)
           *s++ = '&';
         uint16_t seg_len = coap_opt_length(q), i;
         const uint8_t *seg= coap_opt_value(q);
